@@ -20,11 +20,11 @@ import (
 func init() {
 	simkit.Register(&simkit.Property{
 		ID: "C08", Level: "fault_enumeration", Bubble: true, Run: runC08,
-		Rule: "World B, n=3 t=2 (thorough also n=4), one victim keyper running the real main loop. Per run: a crash-free base execution of a complete DKG (check-in, config vote, dealing, accusing, apologizing, result, eon key) records the victim's R seam requests (database round trips and shuttermint RPCs); then crash points of that base run are executed as twins with the base's choice sequence and the same crypto/rand stream: db.crash_before(k) for sampled (quick) / all (thorough) k<=R, db.crash_after_commit(k) for COMMITs (applied, reply lost), rpc.tm_ambiguous+crash for broadcasts (transaction accepted, client dies before the reply); the process is restarted after 0-2 s with only committed database state. Oracles: (exactly-once) at every commit of the victim the newest tendermint_sync_meta.current_block grows by exactly 1 or not at all; (single commitment) shuttermint never receives two different polynomial commitments of the victim for one eon; (consistency) the victim's secret share matches the public share the others derive and t honest shares decrypt (C07's oracle over all keypers); (outbox) shuttermint receives the victim's committed outbox rows in id order, each at least once unless superseded, and the outbox is empty after the drain period; (outcome) success/failure per keyper equals the crash-free twin's whenever in both executions every DKG message landed inside its phase. Non-trivial = a crash point inside an open transaction; distinct = distinct (base trace, crash point) pairs.",
+		Rule: "World B, n=3 t=2 (thorough also n=4; 40% of the runs n=4 with a fourth, Byzantine keyper following one of C07's scripted strategies), one victim keyper running the real main loop; which pending transactions a shuttermint block takes and in which order is a tape choice (20% deferral), so DKG messages of different keypers land in different blocks. Per run: a crash-free base execution of a complete DKG (check-in, config vote, dealing, accusing, apologizing, result, eon key) records the victim's R seam requests (database round trips and shuttermint RPCs); then crash points of that base run are executed as twins with the base's choice sequence and the same crypto/rand stream: db.crash_before(k) for sampled (quick) / all (thorough) k<=R, db.crash_after_commit(k) for COMMITs (applied, reply lost), rpc.tm_ambiguous+crash for broadcasts (transaction accepted, client dies before the reply); the quick tier spends 5 points right after the commit of a block that carried DKG messages; sampled crash pairs (the restarted process dies again at its k2-th request); the process is restarted after 0-2 s with only committed database state. Oracles: (exactly-once) at every commit of the victim the newest tendermint_sync_meta.current_block grows by exactly 1 or not at all; (single commitment) shuttermint never receives two different polynomial commitments of the victim for one eon; (consistency) the victim's secret share matches the public share the others derive and t honest shares decrypt (C07's oracle over all keypers); (outbox) shuttermint receives the victim's committed outbox rows in id order, each at least once unless superseded, and the outbox is empty after the drain period; (outcome) success/failure per keyper equals the crash-free twin's whenever in both executions every DKG message landed inside its phase. Non-trivial = a crash point inside an open transaction; distinct = distinct (base trace, crash point) pairs.",
 		Assumptions: []string{"restart delay <= 2 s and phase length >= 8 blocks, so that a crash does not by itself push the victim's messages out of their phases", "operateShuttermint returning an error ends the process (supervisor restarts it)"},
 		Real:        []string{"keyper.KeyperCore.operateShuttermint, smobserver, fx.SendShutterMessages, ShuttermintState.Load/Invalidate", "app.ShutterApp", "keyper/database sqlc, pgx"},
 		Stub:        []string{"Tendermint (simtm)", "execution node (simeth)", "PostgreSQL (pgsim: only committed state survives KillAll)", "libp2p (simnet)"},
-		QuickRuns:   48, ThoroughRuns: 480, QuickMinimize: 10, ThoroughMinimize: 30,
+		QuickRuns:   160, ThoroughRuns: 480, QuickMinimize: 10, ThoroughMinimize: 30,
 	})
 }
 
@@ -32,6 +32,7 @@ type c08Crash struct {
 	at   int    // victim request number (1-based), 0 = none
 	mode string // before | after-commit | tm-ambiguous
 	delay time.Duration
+	at2  int // >0: the restarted process dies again at its at2-th request (before it is served)
 }
 
 type c08Outcome struct {
@@ -74,13 +75,19 @@ func c08Execute(r *simkit.Run, n, t, nbyz int, L int64, tape []int, crash c08Cra
 	victim := nodes[0]
 	commitAt := map[int64]int{}
 	where := fmt.Sprintf("crash %s at victim request %d", crash.mode, crash.at)
+	if crash.at2 > 0 {
+		where += fmt.Sprintf(" and again at request %d after the restart", crash.at2)
+	}
 	// exactly-once monitor
 	lastSync := int64(0)
 	type outRow struct {
 		id   int64
 		desc string
 		msg  []byte
+		step int // harness step in which the row became durable
 	}
+	stepNo := 0
+	const drainSteps = 6
 	var outbox []outRow
 	seenOut := map[int64]bool{}
 	victim.db.OnCommit(func(no uint64, changed []string) {
@@ -103,12 +110,13 @@ func c08Execute(r *simkit.Run, n, t, nbyz int, L int64, tape []int, crash c08Cra
 					id := rw[ci["id"]].(int64)
 					if !seenOut[id] {
 						seenOut[id] = true
-						outbox = append(outbox, outRow{id, rw[ci["description"]].(string), rw[ci["msg"]].([]byte)})
+						outbox = append(outbox, outRow{id, rw[ci["description"]].(string), rw[ci["msg"]].([]byte), stepNo})
 					}
 				}
 			}
 		}
 	})
+	secondArmed, secondDone, sinceRestart := false, false, 0
 	w.decideHook = func(rq *simkit.Req) (any, bool) {
 		if rq.Node != victim.name || victim.dying {
 			return nil, false
@@ -128,6 +136,23 @@ func c08Execute(r *simkit.Run, n, t, nbyz int, L int64, tape []int, crash c08Cra
 			kind = "tm-broadcast"
 		}
 		out.kinds = append(out.kinds, kind)
+		if secondArmed {
+			sinceRestart++
+			if sinceRestart == crash.at2 {
+				secondArmed = false
+				out.crashed = true
+				w.crash(victim)
+				r.Fault("crash.second")
+				switch {
+				case req != nil:
+					return pgsim.ResetConnBefore, true
+				case rq.Kind == "tm":
+					return tmFault{before: simtm.ErrRPC}, true
+				default:
+					return errInjectedRPC, true
+				}
+			}
+		}
 		if crash.at == 0 || out.requests != crash.at {
 			return nil, false
 		}
@@ -158,6 +183,7 @@ func c08Execute(r *simkit.Run, n, t, nbyz int, L int64, tape []int, crash c08Cra
 	}
 	restartAt := time.Duration(-1)
 	step := func() {
+		stepNo++
 		// which pending transactions the block takes, and in which order, is a choice: DKG
 		// messages of different keypers land in different blocks
 		pick := []int{}
@@ -183,6 +209,9 @@ func c08Execute(r *simkit.Run, n, t, nbyz int, L int64, tape []int, crash c08Cra
 				restartAt = -1
 				out.crashed = false
 				r.Probe("restarts")
+				if crash.at2 > 0 && !secondDone {
+					secondArmed, secondDone, sinceRestart = true, true, 0
+				}
 			}
 		}
 	}
@@ -210,8 +239,15 @@ func c08Execute(r *simkit.Run, n, t, nbyz int, L int64, tape []int, crash c08Cra
 			}
 		}
 	}
-	for i := 0; i < 6; i++ {
+	// drain period: six quiet steps with the victim up (a crash near the end of the run, or a
+	// crash pair, restarts it inside this period)
+	for quiet, i := 0, 0; quiet < drainSteps && i < 40; i++ {
 		step()
+		if victim.running && !out.crashed {
+			quiet++
+		} else {
+			quiet = 0
+		}
 	}
 	if r.Failed() {
 		r.Fail("", "", "")
@@ -312,13 +348,37 @@ func c08Execute(r *simkit.Run, n, t, nbyz int, L int64, tape []int, crash c08Cra
 			r.Fail("two-different-commitments", "commitment", "%s: shuttermint received two different polynomial commitments of the victim for eon %d", where, eon)
 		}
 	}
+	if r.KeepLog {
+		for _, row := range outbox {
+			r.Eventf("outbox row %d %q delivered=%t", row.id, row.desc, delivered[row.id])
+		}
+		r.Eventf("outbox length now %d, victim synced block %d, chain height %d", victim.outboxLen(), victim.syncedBlock(), w.tmc.Height)
+	}
+	// (a failed DKG is followed by the next eon's, so the victim may still be producing
+	// messages at the end: only rows that have been durable for the whole drain period - during
+	// which the victim was up - are owed)
+	queued := map[int64]bool{}
+	{
+		cols, rows := victim.db.Dump("tendermint_outgoing_messages")
+		for i, cn := range cols {
+			if cn == "id" {
+				for _, rw := range rows {
+					queued[rw[i].(int64)] = true
+				}
+			}
+		}
+	}
 	for _, row := range outbox {
+		if stepNo-row.step < drainSteps {
+			r.Probe("outbox-rows-younger-than-drain-period")
+			continue
+		}
 		if !delivered[row.id] && !strings.HasPrefix(row.desc, "new batch config") {
 			r.Fail("outbox-message-lost", "outbox", "%s: committed outbox row %d (%s) never reached shuttermint", where, row.id, row.desc)
 		}
-	}
-	if n := victim.outboxLen(); n != 0 {
-		r.Fail("outbox-not-drained", "outbox", "%s: %d messages are still queued after the drain period", where, n)
+		if queued[row.id] {
+			r.Fail("outbox-not-drained", "outbox", "%s: outbox row %d (%s) is still queued %d steps after it was committed", where, row.id, row.desc, stepNo-row.step)
+		}
 	}
 	return out
 }
@@ -360,6 +420,9 @@ func runC08(r *simkit.Run) {
 			if base.kinds[k-1] == "tm-broadcast" {
 				points = append(points, c08Crash{at: k, mode: "tm-ambiguous"})
 			}
+			if k%5 == 0 { // sampled crash pairs on top of the complete single-crash enumeration
+				points = append(points, c08Crash{at: k, mode: "before", at2: 1 + c.Intn(120, "second-crash-at")})
+			}
 		}
 		r.Exhaustive = true
 	} else {
@@ -388,6 +451,15 @@ func runC08(r *simkit.Run) {
 		for i := 0; i < 3 && len(bcasts) > 0; i++ {
 			points = append(points, c08Crash{at: bcasts[c.Intn(len(bcasts), "crash-broadcast")], mode: "tm-ambiguous"})
 		}
+		// crash pairs: the restarted process dies again early (while it loads its state and
+		// catches up) or somewhat later
+		for i := 0; i < 3; i++ {
+			at2 := 1 + c.Intn(12, "second-crash-early")
+			if c.Bool("second-crash-later") {
+				at2 = 1 + c.Intn(120, "second-crash-at")
+			}
+			points = append(points, c08Crash{at: 1 + c.Intn(base.requests, "crash-at"), mode: "before", at2: at2})
+		}
 	}
 	for pi, p := range points {
 		p.delay = time.Duration(c.Intn(3, "restart-delay")) * time.Second
@@ -398,6 +470,9 @@ func runC08(r *simkit.Run) {
 			r.Probe("crash-inside-transaction")
 		}
 		r.Probe("crash-points")
+		if p.at2 > 0 {
+			r.Probe("crash-pairs")
+		}
 		r.Eventf("point %d: %+v -> success=%v inPhase=%t", pi, p, sub.success, sub.inPhase)
 		if base.inPhase && sub.inPhase {
 			for name, ok := range base.success {
